@@ -1,12 +1,13 @@
 #!/bin/bash
 # tools/seed_matrix.sh [jobs]: run every seeded change against the check of the property it breaks (scratch worktrees,
-# never /repo) and write seeded/RESULTS.md.  A seed counts as detected when the check exits 1 with a VIOLATION line.
+# never /repo; meta.json's run_checks names further checks when the change is caught by a neighbouring property's check)
+# and write seeded/RESULTS.md.  A seed counts as detected when the check exits 1 with a VIOLATION line.
 jobs=${1:-3}
 cd "$(dirname "$0")/.."
 tmp=$(mktemp -d /tmp/seedmx.XXXXXX)
 ls seeded | grep -v RESULTS | grep -v '^refactor-' | while read s; do
-  p=$(python3 -c "import json;print(json.load(open('seeded/$s/meta.json'))['breaks_property'])"); echo "$s $p"
-done | xargs -P $jobs -L1 bash -c 'tools/try_mutant.sh seeded/$0/patch.diff $1 > '$tmp'/$0.txt 2>&1'
+  p=$(python3 -c "import json;m=json.load(open('seeded/$s/meta.json'));print(' '.join(m.get('run_checks',[m['breaks_property']])))"); echo "$s $p"
+done | xargs -P $jobs -L1 bash -c 'tools/try_mutant.sh seeded/$0/patch.diff "$@" > '$tmp'/$0.txt 2>&1'
 {
 echo "# Seeded changes against the current checks (written by tools/seed_matrix.sh)"
 echo
@@ -14,7 +15,7 @@ echo "| seeded change | property | exit | failing input reported | last line of 
 echo "|---|---|---|---|---|"
 for s in $(ls seeded | grep -v RESULTS | grep -v '^refactor-'); do
   p=$(python3 -c "import json;print(json.load(open('seeded/$s/meta.json'))['breaks_property'])")
-  rc=$(grep -o "exit=[0-9]*" $tmp/$s.txt | head -1)
+  rc=$(grep -o "^== C[0-9]* exit=[0-9]*" $tmp/$s.txt | sed 's/^== //' | tr '\n' ' ')
   nf=$(grep -c "no-failing-input-found" $tmp/$s.txt)
   v=$(grep -c "^VIOLATION" $tmp/$s.txt)
   fi="yes"; [ "$v" = 0 ] && fi="-"; [ "$nf" != 0 ] && fi="no (no-failing-input-found)"
